@@ -70,11 +70,15 @@ def insertSorted (x : Nat × String) : List (Nat × String) → List (Nat × Str
 
 /-- expected non-zero image over the touched cells, as the harness prints it -/
 def imageStr (k : MemKind) (touched : List Cell) (val : Cell → String) (isZero : Cell → Bool) (ctl : String) : String :=
-  let entries := touched.foldl (fun acc c =>
+  -- collect, sort by linear address, drop repeated addresses (a cell touched twice has one value)
+  let arr : Array (Nat × String) := touched.foldl (fun acc c =>
     if isZero c then acc else match linOf k c with
-      | some l => insertSorted (l, val c) acc
-      | none => acc) []
-  ctl ++ String.join (entries.map fun (l, v) => " " ++ (toHex 1 0).drop 1 ++ (Nat.toDigits 16 l).asString ++ ":" ++ v)
+      | some l => acc.push (l, val c)
+      | none => acc) #[]
+  let sorted := arr.qsort (fun a b => a.1 < b.1)
+  let (entries, _) := sorted.foldl (fun (acc : Array (Nat × String) × Option Nat) e =>
+    if acc.2 == some e.1 then acc else (acc.1.push e, some e.1)) (#[], none)
+  ctl ++ String.join (entries.toList.map fun (l, v) => " " ++ (toHex 1 0).drop 1 ++ (Nat.toDigits 16 l).asString ++ ":" ++ v)
 
 def handleMem (line : String) : String :=
   let secs := (line.splitOn " | ").map String.trim
